@@ -902,7 +902,7 @@ def design(draw, flavor, reset=None, max_stmts=5, depth=2):
             senv = env.child()
             senv.subs = []
             senv.loc_vecs = list(params)
-            shape = draw(st.sampled_from(["flat", "flat", "deep", "early_exit", "early_exit"]))
+            shape = draw(st.sampled_from(["flat", "deep", "early_exit", "early_exit"]))
             if shape == "early_exit":
                 # a loop whose header state has several exits (condition false, break/return before the first await) while
                 # another path keeps iterating: what follows `await sub()` belongs to the exits only
@@ -913,7 +913,18 @@ def design(draw, flavor, reset=None, max_stmts=5, depth=2):
                 guard = {"k": "if", "arms": [[draw(cond_expr(ienv, 1)), opt() + [leave]]], "else": None}
                 aw = {"k": "await", "c": draw(st.one_of(st.just("true"), cond_expr(ienv, 1)))}
                 inner = opt() + ([guard, aw] if draw(st.integers(0, 3)) else [aw, guard]) + opt()
-                body = opt() + [{"k": "while", "c": draw(st.one_of(st.just("true"), cond_expr(ienv, 1))), "body": inner}] + opt()
+                wcond = draw(st.one_of(st.just("true"), cond_expr(ienv, 1)))
+                after = opt()
+                if draw(st.integers(0, 2)) == 0:
+                    # the body ends in an unconditional return: only the break path (and a false condition) reaches what
+                    # follows the loop, which then must still be executed - including its awaits
+                    guard["arms"][0][1][-1] = {"k": "break"}
+                    if draw(st.integers(0, 3)):
+                        wcond = "true"
+                    inner = opt() + [aw, guard] + opt() + [{"k": "return", "e": None}]
+                    after = [sm()] + ([{"k": "await", "c": draw(st.one_of(st.just("true"), cond_expr(ienv, 1)))}]
+                                      if draw(st.booleans()) else []) + [sm()]
+                body = opt() + [{"k": "while", "c": wcond, "body": inner}] + after
             else:
                 body = draw(block(senv, 2 if shape == "deep" else 1, min_size=1, max_size=3, in_sub=True))
             spec["subs"].append({"name": f"sub{i}", "params": params, "body": body})
@@ -927,6 +938,15 @@ def design(draw, flavor, reset=None, max_stmts=5, depth=2):
         spec["body"] = body
     else:
         spec["body"] = draw(block(env, depth, min_size=1, max_size=max_stmts))
+        if flavor == "coro" and spec["subs"]:
+            # a sub-coroutine nobody awaits tests nothing: await each unused one somewhere at the top level (mostly)
+            import json as _json
+            text = _json.dumps(spec["body"])
+            for si, sub in enumerate(spec["subs"]):
+                if f'"sub": {si}' not in text and draw(st.integers(0, 3)):
+                    ienv = Env(spec, flavor).inputs_only()
+                    call = {"k": "awaitsub", "sub": si, "args": [draw(vec_expr(ienv, 1)) for _ in sub["params"]]}
+                    spec["body"].insert(draw(st.integers(0, len(spec["body"]))), call)
         if flavor == "coro" and False and not _unambiguous_first(spec["body"][0]):
             # "the very first action of the process" is only unambiguous for a plain assignment, a plain
             # `await <signal>` / `await true|false` or a `while <signal>|True`: otherwise start with an assignment
